@@ -20,13 +20,18 @@ func VerifH_C14_NextSkipNext() {
 		base = PragmaSize + HeaderSize + pad
 		file = vWrapV2(payload, pad, 0, vBytes("tail", 3))
 	}
-	seekable := vChoose("seekable", 2) == 1
+	kind := vChoose("sourceKind", 3)
 	var src io.Reader
-	var st *vStream
-	if seekable {
+	st := &vStream{}
+	switch kind {
+	case 1:
 		s := &vSeekStream{vStream{data: file}}
 		src, st = s, &s.vStream
-	} else {
+	case 2:
+		// a reader that returns (0, nil) every other call
+		src = &vIdleStream{data: file}
+		vCover("idle-source", true)
+	default:
 		s := &vStream{data: file}
 		src, st = s, s
 	}
@@ -51,7 +56,7 @@ func VerifH_C14_NextSkipNext() {
 	}
 	_, err = br.Next()
 	vAssert("then-eof", err == io.EOF)
-	if isV2 {
+	if isV2 && kind != 2 {
 		vAssert("never-past-payload", st.maxPos <= base+len(payload))
 		vCover("v2-done", true)
 	}
